@@ -673,6 +673,14 @@ func plainLiteralOf(cons schema.Constraint, expr hclsyntax.Expression) bool {
 		return !x.Val.IsNull() && x.Val.Type() == want && (want == cty.Number || want == cty.Bool)
 	case *hclsyntax.TemplateExpr:
 		return x.IsStringLiteral() && want == cty.String
+	case *hclsyntax.ParenthesesExpr:
+		// constants the syntax writes with an operator or parentheses are values of the type all the same
+		return plainLiteralOf(cons, x.Expression)
+	case *hclsyntax.UnaryOpExpr:
+		if lit, ok := x.Val.(*hclsyntax.LiteralValueExpr); ok && !lit.Val.IsNull() {
+			return (x.Op == hclsyntax.OpNegate && want == cty.Number && lit.Val.Type() == cty.Number) ||
+				(x.Op == hclsyntax.OpLogicalNot && want == cty.Bool && lit.Val.Type() == cty.Bool)
+		}
 	}
 	return false
 }
